@@ -520,7 +520,7 @@ class Models(object):
         return _prod(sh) if axis is None else sh[axis]
 
     def np_ndim(self, x):
-        return len(shape_of(x))
+        return len(self.np_shape(x))
 
     def _filled(self, shape, value, kind='f'):
         shape = _shape_arg(shape)
